@@ -283,7 +283,7 @@ PROPS = {
         explanation="step contract of the reconnect loop + DPR handler contract.",
     ),
     "C14": dict(
-        specs=["packer", "avp", "avp_types", "avp_grouped", "base", "node_model", "peer", "helpers", "c20", "family", "node", "c13", "c14"],
+        specs=["packer", "avp", "avp_types", "avp_grouped", "base", "node_model", "peer", "helpers", "c20", "family", "node", "c13", "c14", "c15"],
         ground=[], replay=replay.generic,
         trusted_base=["queue / thread models: Queue.put/get raise only queue.Full / queue.Empty; Thread.start may raise RuntimeError"],
         assumptions=COMMON_ASSUME + [
